@@ -235,6 +235,10 @@ def permitted(identity, restr, cat, decl, cats):
     return allowed
 
 
+LATE = {'entry': ('none',), 'decl': ('value-met+empty', 'two-descr-second-bare', 'two-descr-first-bare'),
+        'ident': ('typed-values', 'string-valued'), 'cats': ('rs-as-support', 'coco+rs-as-assurance')}
+
+
 def _norm(c):
     # without a policy section there is nothing to carry restrictions, categories or the fail switch
     if c['entry'] == 'none':
@@ -251,11 +255,28 @@ def _cells(thorough):
     base = dict(entry='default', restr='names', cat='absent', fail='absent', decl='required+optional', cats='none', ident='full')
     dims = dict(entry=ENTRY, restr=tuple(RESTR), cat=CATS, fail=FAIL, decl=tuple(SP_DECL), cats=tuple(SP_CATS), ident=tuple(IDENTITIES))
     if thorough:
-        for vals in itertools.product(*[dims[k] for k in sorted(dims)]):
+        # complete product over the core alphabets; each value added later (LATE) combined with the complete product of
+        # the core values of the other dimensions (fail switch absent), plus every quick-tier cell (all pairs)
+        seen = set()
+        core = {k: [v for v in dims[k] if v not in LATE.get(k, ())] for k in dims}
+        for vals in itertools.product(*[core[k] for k in sorted(dims)]):
             c = dict(zip(sorted(dims), vals))
-            if c['entry'] == 'none' and (c['restr'], c['cat'], c['fail']) != ('absent', 'absent', 'absent'):
-                continue
+            seen.add(tuple(sorted(c.items())))
             out.append(c)
+        for k, late in LATE.items():
+            for v in late:
+                others = [x for x in sorted(dims) if x != k]
+                for vals in itertools.product(*[core[x] if x != 'fail' else ('absent',) for x in others]):
+                    c = _norm(dict(zip(others, vals), **{k: v}))
+                    t = tuple(sorted(c.items()))
+                    if t not in seen:
+                        seen.add(t)
+                        out.append(c)
+        for c in _cells(False):
+            t = tuple(sorted(c.items()))
+            if t not in seen:
+                seen.add(t)
+                out.append(c)
     else:
         seen = set()
         keys = sorted(dims)
@@ -405,7 +426,7 @@ def run(ctx):
         'level': 'exploration',
         'coverage': {
             'evaluations': n + 2 * len(sq), 'distinct_nontrivial': len(nontriv), 'exhaustive': True, 'two_sp_sequences': len(sq),
-            'rule': 'two SPs of the same entity category with different required lists served in turn by one Server (all ordered pairs x 3 category policies x 2 restriction settings); %s over: identity (6, incl. case variants, multi-valued, non-ASCII, a "secret" attribute no policy names) x policy entry (default / per-SP / per-SP entry falling back to default) x attribute_restrictions (absent, None, names, regex, regex matching nothing, two overlapping regexes) x entity_categories (absent, refeds, swamid, edugain) x fail_on_missing_requested (absent, True, False) x SP declaration (none, required subset, required missing, required+optional, value constraint met/unmet, optional only, optional absent) x SP entity categories (none, R&S, CoCo, half/full swamid tuple, half tuple listed twice); each case through create_authn_response, create_attribute_response and create_attribute_response with the attributes an AttributeQuery names; non-trivial = the reference filter removes something' % ('complete product' if ctx.thorough else 'all pairs of dimensions from a base case + unsatisfiable requirements x every policy shape'),
+            'rule': 'two SPs of the same entity category with different required lists served in turn by one Server (all ordered pairs x 3 category policies x 2 restriction settings); %s over: identity (6, incl. case variants, multi-valued, non-ASCII, a "secret" attribute no policy names) x policy entry (default / per-SP / per-SP entry falling back to default) x attribute_restrictions (absent, None, names, regex, regex matching nothing, two overlapping regexes) x entity_categories (absent, refeds, swamid, edugain) x fail_on_missing_requested (absent, True, False) x SP declaration (none, required subset, required missing, required+optional, value constraint met/unmet, optional only, optional absent) x SP entity categories (none, R&S, CoCo, half/full swamid tuple, half tuple listed twice); each case through create_authn_response, create_attribute_response and create_attribute_response with the attributes an AttributeQuery names, and create_authn_response of an idp+aa entity after its metadata was rendered from the configuration object; values added later - no policy section at all, declarations in one of two SPSSODescriptors / with an empty AttributeValue, identities with non-text and plain-string values, category URIs under other entity-attribute names - each combined with the complete product of the core values of the other dimensions (thorough) or pairwise (quick); non-trivial = the reference filter removes something' % ('complete product of the core alphabets' if ctx.thorough else 'all pairs of dimensions from a base case + unsatisfiable requirements x every policy shape'),
             'samples': [{'case': cs[i0], 'outcomes': res[i0]}], 'distinct_outcomes': len(hist), 'outcome_histogram': hist,
         },
         'assumptions': ['the entity-category tables are data: the oracle carries an independent copy',
